@@ -196,5 +196,162 @@ class CliInputNames(Stream):
         return fails[:1]
 
 
+class CliGlobalExtras(Stream):
+    """the --extra option: projects taken from a --source tree are solved with the named extras; the annotations must
+    still say what each requirer asked for - an input line `sa>=0.5` asked for no extra, a requirement found under
+    sa's extra x is listed as asked by `sa[x]`; source projects and wheels, one and two global extras"""
+    name = "cli-global-extras"
+    quick_n = 40
+    thorough_n = 1500
+    batch = 10
+    parallel_quick = 4
+
+    SPECS = ["", ">=0.5", "<9", "!=0.1", ">=0.5,<9"]
+
+    def setup(self):
+        import tempfile
+        self.tmp = tempfile.mkdtemp(prefix="rvc08x")
+
+    def teardown(self):
+        import shutil
+        shutil.rmtree(getattr(self, "tmp", ""), ignore_errors=True)
+
+    def generate(self, rng):
+        sources = ["sa", "sb", "sc", "sd"][: rng.randint(1, 4)]
+        wheels = ["wa", "wb"]
+        projects = {}
+        for i, n in enumerate(sources):
+            later = sources[i + 1:] + wheels
+            rng.shuffle(later)
+            k = rng.randint(0, min(2, len(later)))
+            base = [[t, rng.choice(self.SPECS)] for t in later[:k]]
+            rest = later[k:]
+            extras = {}
+            for e in ("x", "test"):
+                if rest and rng.random() < 0.7:
+                    extras[e] = [[rest.pop(), rng.choice(self.SPECS)]]
+            projects[n] = {"base": base, "extras": extras}
+        inputs = [["sa", rng.choice(self.SPECS)]]
+        if len(sources) > 2 and rng.random() < 0.4:
+            inputs.append([sources[2], rng.choice(self.SPECS)])
+        return {"projects": projects, "inputs": inputs, "global_extras": rng.choice([["x"], ["test"], ["x", "test"], []])}
+
+    def impl(self, case):
+        import os
+        import re
+        import shutil
+        from rv.core import digest
+        from rv import backends as B
+        from rv.props.c09 import run_cli
+        GL.reset_caches()
+        d = os.path.join(self.tmp, digest(case))
+        shutil.rmtree(d, ignore_errors=True)
+        os.makedirs(d)
+        for n, p in case["projects"].items():
+            pd = os.path.join(d, "tree", n)
+            os.makedirs(pd)
+            cfg = "[metadata]\nname = %s\nversion = 1.0\n\n[options]\ninstall_requires =\n%s" % (n, "".join("    %s%s\n" % (t, sp) for t, sp in p["base"]))
+            if p["extras"]:
+                cfg += "\n[options.extras_require]\n" + "".join("%s =\n%s" % (e, "".join("    %s%s\n" % (t, sp) for t, sp in rs)) for e, rs in p["extras"].items())
+            with open(os.path.join(pd, "setup.cfg"), "w") as f:
+                f.write(cfg)
+        B.write_findlinks(os.path.join(d, "links"), {B.wheel_name(w, "1.0"): B.wheel_bytes(w, "1.0") for w in ("wa", "wb")})
+        with open(os.path.join(d, "in0.txt"), "w") as f:
+            f.write("".join("%s%s\n" % (t, sp) for t, sp in case["inputs"]))
+        extra = ["--source", "tree"]
+        for e in case["global_extras"]:
+            extra += ["--extra", e]
+        r = run_cli(d, ["in0.txt"], extra=extra)
+        shutil.rmtree(d, ignore_errors=True)
+        ann = {}
+        for line in r["stdout"].splitlines():
+            m = re.match(r"^([A-Za-z0-9._-]+)(?:\[[^\]]*\])?==\S+(.*)$", line)
+            if m and "#" in m.group(2):
+                body = m.group(2).split("#", 1)[1].strip()
+                ann[m.group(1)] = [e.strip() for e in re.split(r",\s+(?![^()]*\))", body) if e.strip()]
+            elif m:
+                ann[m.group(1)] = []
+        return {"code": r["code"], "exception": r["exception"], "annotations": ann, "stdout": r["stdout"][-600:]}
+
+    @staticmethod
+    def _entry(text):
+        """`sa[x] (>=0.5,<9 [p,q])` -> (requirer, activating extra, specifier clauses, requested extras)"""
+        import re
+        m = re.match(r"^(\S+?)(?:\[([^\]]*)\])?(?: \((.*)\))?$", text)
+        if not m:
+            return ("?" + text, None, (), ())
+        inner = m.group(3) or ""
+        ex = ()
+        m2 = re.search(r"\[([^\]]*)\]\s*$", inner)
+        if m2:
+            ex = tuple(sorted(x.strip() for x in m2.group(1).split(",")))
+            inner = inner[: m2.start()].strip()
+        return (m.group(1), m.group(2), tuple(sorted(c.strip() for c in inner.split(",") if c.strip())), ex)
+
+    def _expected(self, case):
+        want = {}
+
+        def add(target, requirer, extra, spec):
+            want.setdefault(target, set()).add((requirer, extra, tuple(sorted(c for c in spec.split(",") if c)), ()))
+        todo = []
+        for t, sp in case["inputs"]:
+            add(t, "in0.txt", None, sp)
+            todo.append(t)
+        seen = set()
+        while todo:
+            n = todo.pop()
+            if n in seen:
+                continue
+            seen.add(n)
+            want.setdefault(n, set())
+            p = case["projects"].get(n)
+            if p is None:
+                continue
+            for t, sp in p["base"]:
+                add(t, n, None, sp)
+                todo.append(t)
+            for e in case["global_extras"]:
+                for t, sp in p["extras"].get(e, []):
+                    add(t, n, e, sp)
+                    todo.append(t)
+        return want
+
+    def flags(self, case, r):
+        fl = ["global-extras:%d" % len(case["global_extras"]), "exit:%s" % r["code"]]
+        if any(e in p["extras"] for p in case["projects"].values() for e in case["global_extras"]):
+            fl.append("a-global-extra-activates-requirements")
+        return fl
+
+    def oracle(self, case, r):
+        if r["exception"] or r["code"] != 0:
+            return [("C08/cli-global-extras-run-fails", {"code": r["code"], "exception": r["exception"], "stdout": r["stdout"]})]
+        fails = []
+        want = self._expected(case)
+        for k in sorted(want):
+            got = r["annotations"].get(k)
+            if got is None:
+                fails.append(("C08/pin-not-printed", {"pin": k, "stdout": r["stdout"]}))
+                continue
+            g = {self._entry(e) for e in got}
+            if g != want[k]:
+                sym = "annotation-misses-a-requirer" if want[k] - g and not g - want[k] else "annotation-says-what-was-not-asked"
+                fails.append(("C08/%s/global-extras" % sym, {"pin": k, "asked": sorted(map(str, want[k])), "printed": got}))
+        extra = sorted(set(r["annotations"]) - set(want))
+        if extra:
+            fails.append(("C08/pin-nobody-asked-for/global-extras", {"pins": extra}))
+        return fails[:2]
+
+    def shrink(self, case):
+        names = list(case["projects"])
+        if len(names) > 1:
+            last = names[-1]
+            ps = {n: {"base": [b for b in p["base"] if b[0] != last], "extras": {e: [b for b in rs if b[0] != last] for e, rs in p["extras"].items()}}
+                  for n, p in case["projects"].items() if n != last}
+            ps = {n: dict(p, extras={e: rs for e, rs in p["extras"].items() if rs}) for n, p in ps.items()}
+            yield dict(case, projects=ps, inputs=[i for i in case["inputs"] if i[0] != last])
+        for i in range(len(case["global_extras"])):
+            yield dict(case, global_extras=case["global_extras"][:i] + case["global_extras"][i + 1:])
+
+
 def streams():
-    return [SS.CompileStream("C08"), RenderedAnnotations(), CliInputNames()]
+    return [SS.CompileStream("C08"), RenderedAnnotations(), CliInputNames(), CliGlobalExtras()]
